@@ -15,16 +15,16 @@ Notation FD := (FIm true).
 (** the loop body shared by termList_go and callArgs_go: one more object, then the rest *)
 Lemma loop_step fuel (m : M bool) s g top rest :
   D_next tbls fuel ->
-  (forall s1 g1, FD s1 g1 -> IV s1 -> glive g1 0 -> p_scopeStack s1 = top :: rest -> roomD 0 s1 -> TM NoX s1 g1 ->
+  (forall s1 g1, FD s1 g1 -> IV s1 -> glive g1 0 -> p_scopeStack s1 = top :: rest -> roomD 0 s1 -> TM NoX s1 g1 -> nnp s1 top ->
      wp True m s1 (fun ok s' => exists g', FD s' g' /\ ExtD s1 g1 s' g' /\ Fr NoP (eq top) NoP s1 g1 s' g' /\ Psi s' <= Psi s1 + 1 /\
         (ok = true -> Psi s' <= Psi s1 /\ TM NoX s' g' /\ p_scopeStack s' = p_scopeStack s1))) ->
-  FD s g -> IV s -> glive g 0 -> p_scopeStack s = top :: rest -> roomD 0 s -> TM NoX s g ->
+  FD s g -> IV s -> glive g 0 -> p_scopeStack s = top :: rest -> roomD 0 s -> TM NoX s g -> nnp s top ->
   wp True (mlet res <~ parseNextObject fuel ;; if pres_eqb res ROk then m else ret false) s (fun ok s' => exists g',
     FD s' g' /\ ExtD s g s' g' /\ Fr NoP (eq top) NoP s g s' g' /\ Psi s' <= Psi s + 1 /\
     (ok = true -> Psi s' <= Psi s /\ TM NoX s' g' /\ p_scopeStack s' = p_scopeStack s)).
 Proof.
-  intros IHn IHm H I0 H0 Est Hroom HTM.
-  wbi tbls I0. eapply wp_weaken; [apply (IHn s g top rest H I0 H0 Est Hroom HTM)| |].
+  intros IHn IHm H I0 H0 Est Hroom HTM Hnnp.
+  wbi tbls I0. eapply wp_weaken; [apply (IHn s g top rest H I0 H0 Est Hroom HTM Hnnp)| |].
   { auto. }
   intros res s1 (g1 & H1 & X1 & F1 & P1 & Hok1) I1.
   destruct res; cbn [pres_eqb]; try (apply wp_ret; exists g1; repeat (split; [assumption|]); intros E; discriminate).
@@ -34,6 +34,7 @@ Proof.
   - rewrite K3. exact Est.
   - unfold roomD in *. lia.
   - exact K2.
+  - apply (nnp_keep NoP s g s1 top (fr_keep _ _ _ _ _ _ _ F1) (fi_R _ _ H) (scope_topD _ _ _ _ H Est) Hnnp).
   - auto.
   - intros ok s' (g' & H' & X' & F' & P' & Hok'). exists g'. split; [exact H'|].
     split; [eapply ExtD_trans; eauto|]. split.
@@ -43,22 +44,22 @@ Qed.
 
 Lemma step_Dtermlist fuel : D_next tbls fuel -> D_termlist tbls fuel -> D_termlist tbls (S fuel).
 Proof.
-  intros IHn IHt s g top rest H I0 H0 Est Hroom HTM. cbn [termList_go].
+  intros IHn IHt s g top rest H I0 H0 Est Hroom HTM Hnnp. cbn [termList_go].
   wbi tbls I0. apply wp_get. intros _.
   destruct (eof (p_r s)).
   { apply wp_ret. exists g. split; [exact H|]. split; [apply ExtD_refl|]. split; [apply Fr_refl|]. split; [lia|].
     intros _. split; [lia|]. split; [exact HTM|reflexivity]. }
   apply (loop_step fuel (termList_go fuel) s g top rest IHn); auto.
-  intros s1 g1 A B C D E F. apply (IHt s1 g1 top rest A B C D E F).
+  intros s1 g1 A B C D E F G. apply (IHt s1 g1 top rest A B C D E F G).
 Qed.
 
 Lemma step_Dcallargs fuel : D_next tbls fuel -> D_callargs tbls fuel -> D_callargs tbls (S fuel).
 Proof.
-  intros IHn IHc cnt s g top rest H I0 H0 Est Hroom HTM. cbn [callArgs_go].
+  intros IHn IHc cnt s g top rest H I0 H0 Est Hroom HTM Hnnp. cbn [callArgs_go].
   destruct cnt as [|c].
   { apply wp_ret. exists g. split; [exact H|]. split; [apply ExtD_refl|]. split; [apply Fr_refl|]. split; [lia|].
     intros _. split; [lia|]. split; [exact HTM|reflexivity]. }
   apply (loop_step fuel (callArgs_go fuel c) s g top rest IHn); auto.
-  intros s1 g1 A B C D E F. apply (IHc c s1 g1 top rest A B C D E F).
+  intros s1 g1 A B C D E F G. apply (IHc c s1 g1 top rest A B C D E F G).
 Qed.
 End StepL.
